@@ -10,6 +10,7 @@ DRV_SRCS = ["drv/main.cc", "drv/scripted_backend.cc", "drv/scripted_modelapi_con
 
 TARGETS = {
     "h_sizes": lambda: build("h_sizes", ["src/expr.cc", "src/expr-info.cc", "src/format.cc", "src/problem.cc", "src/nl-reader.cc", "src/posix.cc", "src/os.cc"], "asan", harness_srcs=["h_sizes.cc"]),
+    "h_zzi": lambda: build("h_zzi", ["src/mp/flat/encodings.cpp"], "asan", harness_srcs=["h_zzi.cc"]),
     "h_safeint": lambda: build("h_safeint", [], "asan", harness_srcs=["h_safeint.cc"]),
     "h_drv": lambda: build("h_drv", LIBMP_SRCS, "plain", harness_srcs=DRV_SRCS),
     # the same driver under ASan+UBSan (memory errors on the driver paths: names files, suffix output, ...)
